@@ -52,12 +52,13 @@ var c19Pool = []string{
 	`strict $.a`, `strict $.nokey`, `strict $.a[5]`, `strict $.list[*].x`, `strict $.list[*] ? (@.x > 1)`, `strict exists($.a)`, `strict $.a.size() == 3`, `strict -$.s`, `strict $.a[0 to last].type()`,
 	`$.aa[0 to 1][*]`, `$.aa[0,2][*]`, `$.aa[0,1][*]`, `$.aa[2,0][*]`, `$.aa[*][*]`, `$.aa[*][0 to last]`, `$.aa[last][*]`, `$.aa[0,1,0][*]`, `$.**[*]`, `$.aa[*] ? (@.size() > 1)[*]`,
 	`$."\u0061"`, `$.a\u0061[0]`, `$.s == "\u0061bc\u{31}"`, `$.list[*] ? (@.y starts with "\u0041\u0062")`, `"\ud83d\ude04\u00e9\u4e2d".size()`, `$"\u0076" + $.\u0069`, `$.s like_regex "^\u0061.c"`,
+	`$.kv.keyvalue().value.double()`, `$.kv.keyvalue() ? (@.value.double() > 1).key`, `$ ? (exists(@.kv.keyvalue().value.double()))`, `strict $.kv.keyvalue().value.integer()`,
 	`strict $.big[*].x`, `strict $.big[*].x ? (@ > 100)`, `strict $.big[0 to 7].x ? (@ > 100)`, `strict $.a[*] ? (@ > 100)`, `strict $.big[*].x.double()`, `$.big[*].x ? (@ > 6)`, `$vf + $vi`, `$vn.string()`, `$arr[0] + $vn`,
 	`$.i == 1`, `$.a[*] > 1`, `exists($.a ? (@ > 2))`, `($.i == "x") is unknown`, `$.i == 1 && $.f > 1`, `!($.s == "x")`, `$.x.y.z`, `$.a.b.c`, `$.a[*].foo`, `$.list[1 to last].x`, `$.list[*].t.date().string()`,
 }
 
 var c19Docs = []string{
-	`{"a":[1,2,3],"aa":[[1,2,3],[4],[5],[6,7]],"i":1,"f":1.5,"n":"12","s":"abc1","o":{"b":2},"bools":["t",0],"list":[{"x":1,"y":"ab","t":"2023-08-15"},{"x":2,"y":"Abc","t":"2023-08-17"},{"x":"a","y":"b","z":1,"t":"2023-08-15"}],"d":"2023-08-15","tm":"12:34:56","tmz":"12:34:56+01:00","ts":"2023-08-15T12:34:56","tsz":"2023-08-15T12:34:56.789+01:00","big":[{"x":1},{"x":2},{"x":3},{"x":4},{"x":5},{"x":6},{"x":7},{"x":8},{"y":9}]}`,
+	`{"a":[1,2,3],"aa":[[1,2,3],[4],[5],[6,7]],"i":1,"f":1.5,"n":"12","s":"abc1","o":{"b":2},"bools":["t",0],"list":[{"x":1,"y":"ab","t":"2023-08-15"},{"x":2,"y":"Abc","t":"2023-08-17"},{"x":"a","y":"b","z":1,"t":"2023-08-15"}],"d":"2023-08-15","tm":"12:34:56","tmz":"12:34:56+01:00","ts":"2023-08-15T12:34:56","tsz":"2023-08-15T12:34:56.789+01:00","kv":{"a":1.5,"b":"x","c":2,"d":"y","e":3,"f":"z"},"big":[{"x":1},{"x":2},{"x":3},{"x":4},{"x":5},{"x":6},{"x":7},{"x":8},{"y":9}]}`,
 	`{"a":[],"i":0,"f":-0.5,"n":"x","s":"","o":{},"bools":[],"list":[],"d":"bad","tm":"","tmz":"","ts":"","tsz":""}`,
 	`[1,[2,[3,[4]]],{"b":{"b":1}}]`, `null`, `"just a string"`, `42`, `{"a":{"b":{"c":1}},"i":[0],"x":{"y":{"z":[1,2]}}}`,
 	`{"a":[3,2,1],"aa":[[],[7,8,9,10,11],[12]],"i":2,"f":1e10,"n":"2147483648","s":"ab\nc","o":{"b":2},"bools":["yes","no",1],"list":[{"x":5,"y":"a.c"}],"d":"2024-02-29","tm":"23:59:59.999","tmz":"00:00:00Z","ts":"2024-02-29 23:59:59","tsz":"2024-02-29T23:59:59-08:00"}`,
@@ -381,6 +382,40 @@ func runC19(c *h.Ctx) {
 		}
 		if h.CanonTyped(docs) != docFP {
 			c.Violate("concurrent-differs", h.F("kind", "shared-input-modified"), "a shared document was modified by sequential queries", h.Case{Kind: "shared-input"})
+		}
+	}
+	// two callers that parsed the same text hold independent Paths: using one
+	// of them as a Scan / Unmarshal destination must not reach the other, nor
+	// what Parse returns for that text afterwards
+	for pi, txt := range c19Pool {
+		p1, e1, _ := h.ParseSafe(txt)
+		p2, e2, _ := h.ParseSafe(txt)
+		if e1 != nil || e2 != nil || p1 == nil || p2 == nil {
+			continue
+		}
+		before := p2.String()
+		ob := h.Call("query", p2, docs[0], h.Opts{Vars: vars, TZ: true, Zone: c19Zone})
+		var serr error
+		switch pi % 3 {
+		case 0:
+			serr = p1.Scan(`strict $.some.other."path" ? (@ > 1)`)
+		case 1:
+			serr = p1.UnmarshalText([]byte(`$.rebound[*]`))
+		default:
+			serr = p1.UnmarshalBinary([]byte(`"rebound" == $.x`))
+		}
+		oa := h.Call("query", p2, docs[0], h.Opts{Vars: vars, TZ: true, Zone: c19Zone})
+		p3, e3, _ := h.ParseSafe(txt)
+		c.Eval(2)
+		switch {
+		case serr != nil:
+			c.Note("rebinding a Path failed: " + serr.Error())
+		case p2.String() != before || oa.Class != ob.Class || (!exposed[pi] && h.CanonList(oa.Items) != h.CanonList(ob.Items)):
+			c.Violate("history-dependent", h.F("kind", "paths-share-state"), fmt.Sprintf("after another Path parsed from the same text %q was rebound by Scan/Unmarshal, this one prints %q and Query returns %s (before: %s)", txt, p2.String(), oa.Summary(), ob.Summary()), h.Case{Kind: "alias", Path: txt})
+		case e3 != nil || p3 == nil || p3.String() != before:
+			c.Violate("history-dependent", h.F("kind", "parse-returns-rebound-path"), fmt.Sprintf("Parse(%q) returns a path printing %q after an earlier result for that text was rebound", txt, safeString(p3)), h.Case{Kind: "alias", Path: txt})
+		default:
+			c.Held("history-dependent")
 		}
 	}
 	// sequential order-independence: each path after 0..K other calls on the same *Path
